@@ -35,7 +35,7 @@ func linFilter(e vhook.Event) bool {
 }
 
 type linStats struct {
-	Runs, Ops, WritesOK, ReadsOK, Fails, Faults, Upgrades, Snapshots int
+	Runs, Ops, WritesOK, ReadsOK, Fails, Faults, Upgrades, Snapshots, NonVoters int
 	FinalMismatch                                          []string
 	Nodes                                                  []int
 }
@@ -183,8 +183,12 @@ func clusterTrace(args []string) error {
 		if run%3 == 2 {
 			nn = 5
 		}
-		emit("", "reset", "run", run, "nodes", nn)
-		c, err := newCluster(vClusterOpts{N: nn, Base: filepath.Join(*base, fmt.Sprintf("run%d", run))})
+		nv := 0
+		if run%4 == 1 {
+			nv = 1 // a read replica: takes reads at every level and forwards writes, never votes
+		}
+		emit("", "reset", "run", run, "nodes", nn, "nonvoters", nv)
+		c, err := newCluster(vClusterOpts{N: nn, NonVoters: nv, Base: filepath.Join(*base, fmt.Sprintf("run%d", run))})
 		if err != nil {
 			return fmt.Errorf("cluster: %w", err)
 		}
@@ -192,7 +196,8 @@ func clusterTrace(args []string) error {
 			c.Close()
 			return err
 		}
-		st.Nodes = append(st.Nodes, nn)
+		st.Nodes = append(st.Nodes, nn+nv)
+		st.NonVoters += nv
 		var nodesMu sync.RWMutex // protects c.nodes[i] replacement on restart
 		pick := func(r *rand.Rand) *vNode {
 			nodesMu.RLock()
